@@ -354,6 +354,10 @@ def long_runs(ck, pid, tier):
             pt = G.j9_decode(v)
             pool.append(G.j9_encode(pt, r.choice(G.ALPHA)))
             pool.append(pt)
+        # plaintexts with characters >= 0x80 have perfectly valid $9$ encodings too
+        for pt in ("p\u00e4ssw\u00f6rd", "cl\u00e9-secr\u00e8te"):
+            for _ in range(3):
+                pool.append(G.j9_encode(pt, r.choice(G.ALPHA)))
         lines, vals = [], []
         for i in range(200 if thorough else 80):
             v = r.choice(pool)
@@ -386,6 +390,10 @@ def same_form_twice(ck, pid):
     forms = ["password {} password {}", "key {} key {}", "snmp-server community {} snmp-server community {}",
              "password 0 {} ; password 7 {}", "enable password level 3 {} , enable password level 5 {}", "key hexadecimal {} key 7 {}",
              '{{"a": "password {}", "b": "password 5 {}"}}']
+    if pid == "C07":
+        # (a greedy '(\\S+ )*' prefix makes the snmp form skip to its LAST occurrence on the line; two statements on
+        # one line are outside the recognised forms, so that form is only judged for consistency in C08/C09)
+        forms = [f for f in forms if not f.startswith("snmp-server")]
     for fi, form in enumerate(forms):
         a = G.gen_secret(r, "text")
         b = G.gen_secret(r, ["text", "type7", "hex", "md5"][fi % 4])
@@ -409,6 +417,41 @@ def same_form_twice(ck, pid):
                 ev.append(e)
         traces.append(ev)
         meta.append({"key": "same-syntax-twice-on-one-line", "lines": [ln], "outs": outs})
+    return traces, meta
+
+
+def reserved_case_variants(ck, pid):
+    """Secrets that are spelled like a reserved word in ANOTHER letter case are secrets (only a value that IS a
+    reserved word is exempt): they must be replaced and the paired outputs must agree."""
+    traces, meta = [], []
+    variants = [("Cisco", "Admin"), ("PRIVATE", "MONITOR"), ("Default", "Interface"), ("AF11x".replace("x", ""), "FEC"), ("Permit", "Deny")]
+    forms = ["enable secret {}", "snmp-server community {} RO", 'key "{}";', "username bob password 0 {}", " set password {}"]
+    for vi, pair in enumerate(variants):
+        pair = [v for v in pair if v not in default_reserved_words and v.lower() in default_reserved_words]
+        if len(pair) < 2:
+            continue
+        form = forms[vi % len(forms)]
+        ev = [{"ev": "run", "clauses": CLAUSES[pid]}]
+        outs2 = []
+        for v in pair:
+            ln = form.format(v)
+            outs, logs = run_lines([ln], ["TESTSALT", ""][vi % 2], "rmi" if vi % 2 else "io")
+            if isinstance(outs, str):
+                ev.append({"ev": "exc", "what": outs})
+                continue
+            w = ln.split()
+            idx = [i for i, t in enumerate(w) if v in t][0]
+            tok = w[idx]
+            conc = {"words": w, "lead": ln[: len(ln) - len(ln.lstrip())],
+                    "secrets": [{"value": v, "cls": G.classify(v)[0], "slen": 0, "index": idx, "pre": tok[: tok.index(v)], "post": tok[tok.index(v) + len(v):], "head": "", "tail": "", "n": 1}]}
+            for e in G.project(conc, outs[0], "replace"):
+                e["ev"] = "sec"
+                e["key"] = v
+                ev.append(e)
+            ev.append({"ev": "run", "clauses": CLAUSES[pid]})
+            outs2.append(outs[0])
+        traces.append(ev)
+        meta.append({"key": "secret-is-case-variant-of-reserved-word", "lines": [form.format(v) for v in pair], "outs": outs2})
     return traces, meta
 
 
@@ -489,9 +532,12 @@ def run(pid, tier):
         ck.sample({"history": meta[len(meta) // 2]})
         traces, meta = long_runs(ck, pid, tier)
         judge(ck, pid, traces, meta, "long-run")
-    if pid in ("C08", "C09"):
+    if pid in ("C07", "C08", "C09"):
         traces, meta = same_form_twice(ck, pid)
         judge(ck, pid, traces, meta, "twice")
+    if pid == "C07":
+        traces, meta = reserved_case_variants(ck, pid)
+        judge(ck, pid, traces, meta, "reserved-case-variant")
     if pid == "C08":
         traces, meta = files_workload(ck, pid)
         judge(ck, pid, traces, meta, "files")
